@@ -98,6 +98,17 @@ theorem intervalCmp_eq (I1 I2 : VI) :
     _ (hb I1.aOpen) _ (hb I1.bOpen) _ (hb I2.aOpen) _ (hb I2.bOpen)
   simpa using this
 
+/-- `lp_interval_cmp_lower_bounds` / `_upper_bounds` are the model's bound comparisons -/
+theorem cmpLowerBounds_eq (I1 I2 : VI) :
+    cmpLowerBounds (EP.cmp I1.lower I2.lower) (b2i I1.aOpen) (b2i I2.aOpen) = VI.cmpLower I1 I2 := by
+  unfold cmpLowerBounds VI.cmpLower b2i
+  cases I1.aOpen <;> cases I2.aOpen <;> simp <;> split_ifs <;> simp_all
+
+theorem cmpUpperBounds_eq (I1 I2 : VI) :
+    cmpUpperBounds (EP.cmp I1.upper I2.upper) (b2i I1.bOpen) (b2i I2.bOpen) = VI.cmpUpper I1 I2 := by
+  unfold cmpUpperBounds VI.cmpUpper b2i
+  cases I1.bOpen <;> cases I2.bOpen <;> simp <;> split_ifs <;> simp_all
+
 theorem icmp_enum_order : icmpEnumValues = [0, 1, 2, 3, 4, 5, 6, 7, 8] := by decide
 
 end Gen
